@@ -13,6 +13,8 @@ import (
 //                          (calls, assigned fields, deletes, conditions — in source order)
 //   journalBookkeeping     skeleton of journal.append and journal.Revert (incl. the conditions on the dirty count)
 //   journalAppendSites     per function of statedb.go / state_object.go: the entry types it appends and the fields it assigns, in order
+//   commitSkeletons        skeleton of StateDB.Commit / CommitCacheCtx / commitCtx (loop over the sorted dirties, the three branches,
+//                          the skip of a dirty value equal to OriginStorage[key], the reset of the dirty count)
 func skeleton(body *ast.BlockStmt) []string {
 	var out []string
 	ast.Inspect(body, func(n ast.Node) bool {
@@ -33,6 +35,10 @@ func skeleton(body *ast.BlockStmt) []string {
 				c = exprString(x.Cond)
 			}
 			out = append(out, "for:"+c)
+		case *ast.RangeStmt:
+			out = append(out, "range:"+exprString(x.X))
+		case *ast.BranchStmt:
+			out = append(out, x.Tok.String())
 		case *ast.ReturnStmt:
 			var rs []string
 			for _, r := range x.Results {
@@ -137,6 +143,16 @@ func init() {
 		}
 		sort.Strings(sites)
 		out.f("def journalAppendSites : List String := %s\n", leanStrList(sites))
+		// the write-back: Commit, CommitCacheCtx, commitCtx
+		var commits []string
+		for _, name := range []string{"StateDB.Commit", "StateDB.CommitCacheCtx", "StateDB.commitCtx"} {
+			fd := findFunc(repo, "x/evm/statedb", name)
+			if fd == nil || fd.Body == nil {
+				return fmt.Errorf("%s not found", name)
+			}
+			commits = append(commits, name+" = "+strings.Join(skeleton(fd.Body), " ; "))
+		}
+		out.f("def commitSkeletons : List String := %s\n", leanStrList(commits))
 		return nil
 	}
 }
